@@ -45,6 +45,9 @@ import (
 // trailing newline / junk, legacy shorter / longer, empty, junk shorter / longer), planted by hand as initial states
 // and in the middle of histories; every successful write is confirmed at once.
 //
+// Plus (legacylen_test.go): a PASSPHRASE-LENGTH SWEEP over golden legacy (salt-less) key files that were sealed by the
+// harness's own transcription of the legacy derivation (/verif/golden/c19_legacy_lengths.json), one per length.
+//
 // Clauses: panic, wrong-passphrase-rejected, right-passphrase-loads-same-key, loaded-signer-consistent,
 // legacy-passphrase-distinguishes, export-import, loads-in-other-environment, golden-keyfile-loads, golden-address,
 // saved-key-survives-later-operations.
@@ -715,6 +718,7 @@ func TestCheck(t *testing.T) {
 		"the file system returns what was written (plain os.WriteFile / os.ReadFile in a temp dir)",
 		"Ed25519, AES-GCM, Argon2id and encoding/json behave as specified (trusted libraries); a forged GCM tag is out of reach of single-byte mutations",
 		"legacy (salt-less) files are AES-256-GCM under fallbackDeriveKey(passphrase, 32) with the same JSON field names; written by the harness through a verif hook exposing that function",
+		"the golden legacy key files in /verif/golden/c19_legacy_lengths.json are what the pre-salt version left on disk for passphrases of every listed length: AES-256-GCM with the same JSON field names under the harness's own transcription of the legacy derivation (first 32 bytes of a long passphrase; a shorter one repeated over 32 bytes, byte i of the repeated part XORed with i), never sealed through the code under test; when they were written the pinned tree opened every one of them and its fallbackDeriveKey agreed with the transcription",
 		"the golden key files in /verif/golden/c19.json were written by the pinned tree (throw-away keys, seeded randomness) and are what an earlier process left on disk; child processes are this test binary re-executed under taskset / with other variables",
 		"a mutated file that still decodes to exactly the original key material (base64 trailing bits, JSON key case) is allowed to load",
 		"operation sequences: the two passphrases P and Q are interchangeable for the code (both non-empty and shorter than 32 bytes) and so are the two directories, which justifies executing one history of each pair that differs only by swapping them; the empty passphrase of the thorough tier is not part of that symmetry",
@@ -736,6 +740,13 @@ func TestCheck(t *testing.T) {
 			r.EngineError("cannot write golden file: " + err.Error())
 		} else {
 			fmt.Println("C19: golden key files written to", goldenPath())
+		}
+	}
+	if os.Getenv("VERIF_C19_GOLDEN") == "write-legacy-lengths" {
+		if err := writeLegacyLenGolden(root); err != nil {
+			r.EngineError("cannot write the golden legacy files: " + err.Error())
+		} else {
+			fmt.Println("C19: golden legacy key files (passphrase lengths) written to", legacyLenGoldenPath())
 		}
 	}
 	golden, err := loadGolden()
@@ -802,6 +813,17 @@ func TestCheck(t *testing.T) {
 	}
 	counts["golden_cases"] = len(cases)
 
+	// 0b: golden LEGACY files, one per passphrase length (legacylen_test.go): sealed by the harness's own transcription
+	// of the legacy derivation, not through the code under test
+	llen, err := legacyLenCases(thorough)
+	if err != nil {
+		r.EngineError("golden legacy key files (passphrase lengths): " + err.Error())
+		r.Finish(vf.Coverage{})
+		return
+	}
+	cases = append(cases, llen.cases...)
+	counts["legacy_passphrase_length_cases"] = len(llen.cases)
+
 	// 1 + 3a: all ordered (save, load) passphrase pairs, both formats, load and export
 	for _, fm := range []struct {
 		origin string
@@ -818,7 +840,7 @@ func TestCheck(t *testing.T) {
 			}
 		}
 	}
-	counts["pair_cases"] = len(cases) - counts["golden_cases"]
+	counts["pair_cases"] = len(cases) - counts["golden_cases"] - counts["legacy_passphrase_length_cases"]
 
 	// 4: export → import → load
 	n0 := len(cases)
@@ -1008,7 +1030,13 @@ func TestCheck(t *testing.T) {
 		"workers":                 workers,
 		"deadline_stretch_factor": slow(1),
 		"golden_vectors":          len(golden.Vectors),
-		"environment_phase_s":     envSeconds,
+		"legacy_passphrase_length_sweep": map[string]any{
+			"golden_file": legacyLenGoldenName, "vectors": llen.vectors, "passphrase_lengths": llen.lengths, "byte_patterns": llen.patterns,
+			"byte_pattern_note": "all bytes of one passphrase differ (ascii: printable, lengths <= 94; binary: all byte values incl. 0x00 and >= 0x80)",
+			"per_vector":        llen.perVec, "cases": len(llen.cases),
+			"known_finding": "a wrong passphrase of more than 32 bytes that differs in the last byte only is equal in the first 32 bytes: tag legacy+passphrases-equal-in-first-32-bytes; every other wrong passphrase of the sweep must be refused",
+		},
+		"environment_phase_s": envSeconds,
 		"sequence_one_directory": map[string]any{
 			"passphrases": seqPasses, "alphabet": alphabetNames(seqAlpha1), "depth": seqDepth1,
 			"histories_before_symmetry_reduction": pow(len(seqAlpha1), seqDepth1), "histories": counts["sequence_one_directory_histories"],
@@ -1041,7 +1069,7 @@ func TestCheck(t *testing.T) {
 	}
 	r.Finish(vf.Coverage{
 		Evaluations: done.Load(), DistinctNontrivial: nontrivial.Load(), States: int64(r.DistinctOutcomes()), Transitions: done.Load(),
-		Rule:       "plain nested loops, no sampling: every ordered (save,load) pair of the passphrase set × {created by the real writer, legacy salt-less} × {load, export}; every truncation length and every (position, replacement byte ≠ original) of signer.json, loaded/exported with the right passphrase; export→import→load/export for every save passphrase × import passphrases × {fresh, overwrite}; every ordered (written-in, opened-in) pair of environments within the GOMAXPROCS group and within the ambient (variables, cwd, umask) group, the check's process ↔ each re-executed child process, and every golden key file in every environment (serial phase before the workers; process globals restored afterwards); operation sequences: every history of exactly `depth` operations over the one-directory alphabet {create, load, export, export→import in place (thorough: also import of a fixed key)} × passphrases ∪ {junk import, delete by hand} executed in full without state merging and judged after every step against the reference model (what the directory holds, under which passphrase; the bytes of every key file are compared after every step, a difference after an operation that is not a successful write is settled by loading the saved key), and an explicit-state search (explore.BFS, histories merged on equal model states) over the same operations on two directories plus export(src)→import(dst) in both directions; and an explicit-state search on one directory whose alphabet adds the by-hand operations plant(shape) for every listed file shape (the valid key file re-indented, with trailing newline, with trailing junk, legacy salt-less files shorter and longer than what the package writes, empty, junk shorter and longer; thorough: 13 more) and reindent (the file the package just wrote, re-formatted in place), with import of a fixed key, create and export→import in place (re-encryption) executed on top of every reached state, every successful write confirmed at once by loading the key it claims with its passphrase, every refused or failed call followed by the byte comparison of the file it found; histories merged on model state + form of the key file, run until no new state appears (fixed_point_reached) or to the depth bound. Each case is a distinct input by construction; non-trivial = the input file still decodes as the key-file JSON (so key derivation and decryption are reached) or is an unmutated pair/roundtrip, or a sequence with at least one successful write; states = distinct (section, op, origin, result class) outcomes",
+		Rule:       "plain nested loops, no sampling: every golden legacy (salt-less) key file of the passphrase-length sweep (one per listed passphrase length × byte pattern, sealed independently of the code under test) × {load, export} × {the recorded passphrase: same key, address, exported bytes; the passphrase with only its last byte changed and with only its first byte changed: must be refused, except — listed finding — when both are longer than 32 bytes and equal in the first 32}; every ordered (save,load) pair of the passphrase set × {created by the real writer, legacy salt-less} × {load, export}; every truncation length and every (position, replacement byte ≠ original) of signer.json, loaded/exported with the right passphrase; export→import→load/export for every save passphrase × import passphrases × {fresh, overwrite}; every ordered (written-in, opened-in) pair of environments within the GOMAXPROCS group and within the ambient (variables, cwd, umask) group, the check's process ↔ each re-executed child process, and every golden key file in every environment (serial phase before the workers; process globals restored afterwards); operation sequences: every history of exactly `depth` operations over the one-directory alphabet {create, load, export, export→import in place (thorough: also import of a fixed key)} × passphrases ∪ {junk import, delete by hand} executed in full without state merging and judged after every step against the reference model (what the directory holds, under which passphrase; the bytes of every key file are compared after every step, a difference after an operation that is not a successful write is settled by loading the saved key), and an explicit-state search (explore.BFS, histories merged on equal model states) over the same operations on two directories plus export(src)→import(dst) in both directions; and an explicit-state search on one directory whose alphabet adds the by-hand operations plant(shape) for every listed file shape (the valid key file re-indented, with trailing newline, with trailing junk, legacy salt-less files shorter and longer than what the package writes, empty, junk shorter and longer; thorough: 13 more) and reindent (the file the package just wrote, re-formatted in place), with import of a fixed key, create and export→import in place (re-encryption) executed on top of every reached state, every successful write confirmed at once by loading the key it claims with its passphrase, every refused or failed call followed by the byte comparison of the file it found; histories merged on model state + form of the key file, run until no new state appears (fixed_point_reached) or to the depth bound. Each case is a distinct input by construction; non-trivial = the input file still decodes as the key-file JSON (so key derivation and decryption are reached) or is an unmutated pair/roundtrip, or a sequence with at least one successful write; states = distinct (section, op, origin, result class) outcomes",
 		Exhaustive: !capped.Load() && seq2.stats.Capped == "" && seq3.stats.Capped == "", Caps: caps, Bounds: bounds,
 		Extra: map[string]any{"oracle_failures_by_clause_and_input_features": breakdown},
 	})
